@@ -6,11 +6,15 @@ package harness
 
 import (
 	"fmt"
+	"os"
+	"os/exec"
+	"pgregory.net/rapid"
+	"strings"
 	"time"
 )
 
 // two cleanups of one invocation: one falsifies, the other one skips or is rejected
-var c02TwoCleanups = []Beh{BCleanupSkipCleanupPanic, BCleanupSkipCleanupFatal, BCleanupRejectCleanupPanic, BCleanupPanicCleanupSkip, BCleanupErrorfCleanupSkip}
+var c02TwoCleanups = []Beh{BCleanupSkipCleanupPanic, BCleanupSkipCleanupFatal, BCleanupRejectCleanupPanic, BCleanupPanicCleanupSkip, BCleanupErrorfCleanupSkip, BCleanupPanicThenSkip, BCleanupPanicThenReject, BCleanupNilMapThenSkip}
 
 func c02Alphabet(ctx string) []Beh {
 	switch ctx {
@@ -102,7 +106,64 @@ func c02Units(tier string, seed int64) []Unit {
 			}})
 		}
 	}
+	// the same matrix cell "panic(nil)" under GODEBUG=panicnil=1 - the default of every main module whose go.mod
+	// says go 1.20 or older (rapid's own included): recover() then returns nil for it. Run in a subprocess,
+	// because the setting is read when the process starts.
+	units = append(units, Unit{Name: "C02/panic(nil) under GODEBUG=panicnil=1", Run: func(c *Ctx) {
+		self, _ := os.Executable()
+		cmd := exec.Command(self, "panicnilprobe")
+		cmd.Env = append(os.Environ(), "GODEBUG=panicnil=1")
+		out, err := cmd.CombinedOutput()
+		if err != nil {
+			c.R.HarnessErr = fmt.Sprintf("panicnilprobe: %v: %s", err, trunc(string(out), 600))
+			return
+		}
+		n := 0
+		for _, ln := range strings.Split(strings.TrimSpace(string(out)), "\n") {
+			f := strings.Fields(ln)
+			if len(f) != 4 || f[0] != "probe" {
+				continue
+			}
+			n++
+			c.R.Evals++
+			c.R.States++
+			c.R.Transitions++
+			c.Outcome(ln, true)
+			if f[2] != "failed=true" {
+				c.Violate(Violation{Sig: "C02 lost-falsification kind=panic(nil) ctx=" + f[1] + " godebug=panicnil=1",
+					Detail: "every test case executes panic(nil) in context " + f[1] + ", the process runs with GODEBUG=panicnil=1: Check did not fail the test (" + f[3] + ")",
+					Replay: map[string]any{"engine": "subprocess", "godebug": "panicnil=1", "ctx": f[1]}})
+			}
+		}
+		if n != 6 {
+			c.R.HarnessErr = "panicnilprobe printed " + fmt.Sprint(n) + " results, want 6: " + trunc(string(out), 400)
+		}
+	}})
 	return units
+}
+
+// PanicNilProbeMain (subprocess, started with GODEBUG=panicnil=1): one Check per callback context in which
+// every test case executes panic(nil).
+func PanicNilProbeMain() {
+	d, _ := os.MkdirTemp("", "panicnil-")
+	os.Chdir(d)
+	defer os.RemoveAll(d)
+	for _, ctx := range []string{"body", "custom", "custom2", "action", "invariant"} {
+		prog := progUniqueCtx(ctx, BPanicNil)
+		env := NewEnv(nil, prog.Base)
+		log := RunCheck(prog, env, Config{Checks: 3, Seed: 5, ShrinkMS: 3, NoFailFile: true, Steps: 3, Name: "TestPanicNil"})
+		fmt.Printf("probe %s failed=%v class=%s\n", ctx, log.TB.IsFail, log.Verdict().Class)
+	}
+	// and from a Cleanup function of the property
+	prog := &LazyProgram{Name: "cleanup-panics-nil", Base: func(string, string) Beh { return BPass }, Body: func(t *rapid.T, e *Env) {
+		x := rapid.Uint64().Draw(t, "x")
+		e.cur.Draws = fmt.Sprint(x)
+		e.cur.Signalled = append(e.cur.Signalled, BPanicNil)
+		t.Cleanup(func() { var nothing any; panic(nothing) })
+	}}
+	env := NewEnv(nil, prog.Base)
+	log := RunCheck(prog, env, Config{Checks: 3, Seed: 5, ShrinkMS: 3, NoFailFile: true, Name: "TestPanicNil"})
+	fmt.Printf("probe %s failed=%v class=%s\n", "cleanup", log.TB.IsFail, log.Verdict().Class)
 }
 
 func init() {
